@@ -110,6 +110,45 @@ def hostile_dir_names(rng):
     return names
 
 
+MEMBER_LIMIT = 10 * 1024 * 1024
+TAIL_TOKEN = "qt77777z"          # last bytes of every oversize member
+
+
+def _add_twins(rng, seed, layout, members, info):
+    """Members with *equal base names* in different roles - an ordinary visible one and one below __MACOSX/ - in both orders, in one archive or
+    spread over a sequence of archives (any container) that the same process handles one after the other; the same name with other
+    content in an earlier archive.  What an archive yields is a function of its bytes: never a protected twin, never content of an
+    earlier archive, and the same again when the archive is processed a second time later."""
+    ext = rng.choice([".txt", ".md", ".csv"])
+    sib = lambda: rng.choice(["zip-stored", "tar", "7z-copy-solid", layout])       # noqa: E731
+    for k in range(rng.randint(1, 2)):
+        base = f"tw{seed % 100000}x{k}{ext}"
+        tv, tf, tp = (f"q{c}{seed % 1000:03d}{k}z" for c in "vfp")
+        vis = {"name": rng.choice(["docs/", "", "a/b/"]) + base, "data": f"{tv} visible twin\n".encode(), "type": "file"}
+        fork = {"name": "__MACOSX/" + rng.choice(["", "docs/", "a/b/"]) + base, "data": f"{tf} fork twin\n".encode(), "type": "file"}
+        shape = rng.choice(["same-archive-visible-first", "same-archive-fork-first", "earlier-archive-visible", "earlier-archive-fork", "earlier-archive-same-name-other-content"])
+        info["twins"] += 1
+        if shape.startswith("same-archive"):
+            i = rng.randint(0, len(members))
+            members.insert(i, vis)
+            members.insert(rng.randint(i + 1, len(members)) if shape.endswith("visible-first") else rng.randint(0, i), fork)
+            info["twin_forbidden"].append(tf)
+            info["own"] += [tv, tf]
+        elif shape == "earlier-archive-visible":
+            info["prelude"].append({"layout": sib(), "members": [vis], "forbidden": [], "own": [tv]})
+            members.insert(rng.randint(0, len(members)), fork)
+            info["twin_forbidden"].append(tf)
+            info["own"].append(tf)
+        elif shape == "earlier-archive-fork":
+            info["prelude"].append({"layout": sib(), "members": [fork], "forbidden": [tf], "own": [tf]})
+            members.insert(rng.randint(0, len(members)), vis)
+            info["own"].append(tv)
+        else:
+            info["prelude"].append({"layout": sib(), "members": [dict(vis, data=f"{tp} earlier content\n".encode())], "forbidden": [], "own": [tp]})
+            members.insert(rng.randint(0, len(members)), vis)
+            info["own"].append(tv)
+
+
 def _escapes(name: str) -> bool:
     """Would creating ``name`` below the extraction directory TMP/<x> touch anything outside that directory?"""
     base = os.path.join(TMP, "x")
@@ -129,7 +168,8 @@ def build_case(seed: int, layout: str, focus: str = "names"):
         names = [n for n in names if len(n.encode()) <= 100]      # the 1988 header cannot hold longer names (a packer refuses them)
     members = []
     expect_skip = []
-    info = {"hostile_dirs": 0, "escaping_dirs": 0, "links_to_protected": 0, "link_tokens": [], "oversize_linked": False}
+    info = {"hostile_dirs": 0, "escaping_dirs": 0, "links_to_protected": 0, "link_tokens": [], "oversize_linked": False, "oversize_form": None, "substreams": True,
+            "prelude": [], "twin_forbidden": [], "own": [], "twins": 0}
     for i, nm in enumerate(names):
         tok = f"qa{seed % 1000:03d}{i:02d}z"
         data = f"{tok} member payload {i}\n".encode()
@@ -139,7 +179,7 @@ def build_case(seed: int, layout: str, focus: str = "names"):
         if nm.endswith((".zip", ".tar.gz", ".7z")):
             data = archives.build("zip-stored", [{"name": "x.txt", "data": f"{tok} nested".encode()}])
         m = {"name": nm, "data": data, "type": "file"}
-        if fam == "7z" and rng.random() < 0.35:
+        if fam == "7z" and focus == "names" and rng.random() < 0.35:
             m["phantom"] = True          # entry flagged as having data, but no stream exists for it
         members.append(m)
         base = nm.replace("\\", "/").rsplit("/", 1)[-1] if fam != "zip" else nm.rsplit("/", 1)[-1]
@@ -186,12 +226,25 @@ def build_case(seed: int, layout: str, focus: str = "names"):
             members.append(m)
             info["hostile_dirs"] += 1
             info["escaping_dirs"] += 1 if _escapes(nm) else 0
-    # oversize member (> 10 MiB): must be skipped without result
+    # oversize member (> 10 MiB): must be skipped without result.  In a 7z with one folder per file the listing may say something else than
+    # what the coder produces: no SubStreamsInfo section at all, or a folder / sub-stream size below the limit (the tail token sits behind it)
     oversize_tok = None
     if rng.random() < 0.15:
         oversize_tok = f"qo{seed % 100000:05d}z"
-        members.append({"name": "big.txt", "data": oversize_tok.encode() + b"\n" + b"0" * (10 * 1024 * 1024 + 5), "type": "file"})
+        big = {"name": "big.txt", "data": oversize_tok.encode() + b"\n" + b"0" * (10 * 1024 * 1024 + 5) + TAIL_TOKEN.encode() + b"\n", "type": "file"}
+        info["oversize_form"] = "honest"
+        if fam == "7z" and "per-file" in layout:
+            info["oversize_form"] = rng.choice(["honest", "no-substreams", "listed-smaller", "listed-smaller"])
+            if info["oversize_form"] == "no-substreams":
+                info["substreams"] = False
+                big["inconsistent"] = True
+            elif info["oversize_form"] == "listed-smaller":
+                big["declared_size"] = rng.choice([0, 64, 4096, MEMBER_LIMIT - 1, MEMBER_LIMIT])
+                big["inconsistent"] = True
+        members.append(big)
     rng.shuffle(members)
+    if focus == "twins":
+        _add_twins(rng, seed, layout, members, info)
     # link members pointing at members of the archive that must not produce a result, under an innocent supported name
     if fam not in ("7z",) and (focus == "links" or rng.random() < 0.25):
         picks = rng.sample(PROTECTED, rng.randint(1, 3)) + [("visible", "visible-twin.txt")]      # the last one is the control: a link to an ordinary member
@@ -234,7 +287,8 @@ def work(case):
     layout = case["layout"]
     members, canaries, expect_skip, oversize_tok, info = build_case(case["seed"], layout, case.get("focus", "names"))
     try:
-        data = archives.build(layout, members)
+        data = archives.build(layout, members, substreams=info["substreams"])
+        prelude = [dict(a, data=archives.build(a["layout"], a["members"])) for a in info["prelude"]]
     except Exception as e:
         return {"unbuildable": f"{type(e).__name__}: {e}"[:200]}
     if case.get("mutate"):
@@ -248,8 +302,11 @@ def work(case):
     exc = None
     fn = obs.extractor("zip")
     gc.collect()
+    runs = []           # twins: (archive, result names, result texts | exception name) of every archive of the sequence, and of the first one run again
     fsaudit.arm()
     try:
+        for a in prelude:
+            runs.append((a, *_exhaust(fn, a["data"], a["layout"])))
         gen = fn(io.BytesIO(data), "dir/arch" + archives.ext_of(layout))
         try:
             for r in gen:
@@ -280,6 +337,13 @@ def work(case):
             fsaudit.disarm()
             raise
         exc = obs.exc_record(e, n)
+    rerun = None
+    try:
+        if case.get("focus") == "twins":
+            main = {"layout": layout, "data": data, "forbidden": info["twin_forbidden"], "own": info["own"]}
+            runs.append((main, list(names), list(texts)) if exc is None else (main, None, exc["name"]))
+            first = runs[0][0]
+            rerun = _exhaust(fn, first["data"], first["layout"])
     finally:
         fsaudit.disarm()
     events = fsaudit.drain()
@@ -334,7 +398,34 @@ def work(case):
     out["oversize_linked"] = info["oversize_linked"]
     out["linked_protected_member_in_results"] = [t for t in info["link_tokens"] if t in blob] if consistent else []
     out["result_names"] = names[:12]
+    # no result may carry what lies behind the per-member limit, whatever the listing says about the member's size
+    out["oversize_form"] = info["oversize_form"]
+    out["oversize_content_in_results"] = (TAIL_TOKEN in blob) or any(len(t) > MEMBER_LIMIT for t in texts)
+    # twins: per archive of the sequence
+    out["twins"] = info["twins"]
+    out["twin_forbidden_in_results"], out["earlier_archive_content_in_results"], out["history_dependent"] = [], [], None
+    if runs and rerun is not None and not case.get("mutate"):
+        all_tokens = {t for a, _, _ in runs for t in a["own"]}
+        for a, nm, tx in runs:
+            b = "\n".join(tx) if isinstance(tx, list) else ""
+            out["twin_forbidden_in_results"] += [t for t in a["forbidden"] if t in b and t not in out["twin_forbidden_in_results"]]
+            out["earlier_archive_content_in_results"] += [t for t in sorted(all_tokens - set(a["own"])) if t in b]
+        (_, n0, t0), (n1, t1) = runs[0], rerun
+        if (n0, t0) != (n1, t1):
+            out["history_dependent"] = f"first archive of the sequence ({runs[0][0]['layout']}): {n0!r:.120} at first, {n1!r:.120} when processed again after {len(runs) - 1} other archive(s)"
     return out
+
+
+def _exhaust(fn, data, layout):
+    """-> (result names, result texts) or (None, exception class name)"""
+    names, texts = [], []
+    try:
+        for r in fn(io.BytesIO(data), "dir/arch" + archives.ext_of(layout)):
+            names.append(r.get_metadata().filename)
+            texts.append(r.get_full_text())
+    except Exception as e:
+        return None, type(e).__name__
+    return names, texts
 
 
 def _host_tree() -> set:
@@ -376,11 +467,13 @@ def gen_cases(run):
     for layout in archives.EXTENDED_LAYOUTS:
         fam = archives.family(layout)
         # r % 5 == 4: byte-mutated archive; otherwise the hostile part is the file names / the directory entries / (TAR, ZIP) link members
-        cycle = ["names", "dirs", "names", "dirs"] if fam == "7z" else ["names", "links", "dirs", "links"]
+        cycle = ["names", "dirs", "twins", "dirs"] if fam == "7z" else ["names", "links", "dirs", "twins"]
         for r in range(run.n(40, 400) if layout in archives.ALL_LAYOUTS else run.n(12, 120)):      # TAR header formats gnu / ustar: fewer repetitions
             cid += 1
-            yield {"id": cid, "layout": layout, "seed": run.seed * 100000 + cid, "behaviour": BEHAVIOURS[r % 4], "mutate": r % 5 == 4,
-                   "focus": "names" if r % 5 == 4 else cycle[(r // 5 + r) % 4]}
+            focus = "names" if r % 5 == 4 else cycle[(r // 5 + r) % 4]
+            # twins: a sequence of archives, each consumed to the end (the first one a second time at the end)
+            yield {"id": cid, "layout": layout, "seed": run.seed * 100000 + cid, "behaviour": "exhaust" if focus == "twins" else BEHAVIOURS[r % 4], "mutate": r % 5 == 4,
+                   "focus": focus}
 
 
 def main(run):
@@ -414,6 +507,10 @@ def main(run):
             if ob.get(k) and not case["mutate"]:
                 run.count(f"{'7z' if fam == '7z' else 'zip' if fam == 'zip' else 'tar'}_archives_with_{k}")
         run.count("mkdir_events_observed", ob.get("n_mkdir_events", 0))
+        if ob.get("twins") and not case["mutate"]:
+            run.count("archive_sequences_with_same_base_name_twins")
+        if ob.get("oversize_form") in ("no-substreams", "listed-smaller") and not case["mutate"]:
+            run.count("7z_archives_with_oversize_member_listed_smaller")
         per_layout[case["layout"]] = per_layout.get(case["layout"], 0) + 1
         ev_total += ob["n_events"]
         armed_with_events += 1 if ob["n_events"] else 0
@@ -445,6 +542,17 @@ def main(run):
         if ob["oversize_in_results"]:
             v("oversize-member-produced-result", "the > 10 MiB member produced a result" + (" (a link member points at it)" if ob["oversize_linked"] else ""),
               "link-to-protected-member" if ob["oversize_linked"] else "hostile-names")
+        if ob["oversize_content_in_results"]:
+            forged = ob["oversize_form"] in ("no-substreams", "listed-smaller")
+            v("oversize-member-produced-result", "a result carries content that lies behind the 10 MiB per-member limit" + (f" (7z folder of one file, size listing: {ob['oversize_form']})" if forged else ""),
+              "oversize-member-listed-smaller" if forged else "link-to-protected-member" if ob["oversize_linked"] else "hostile-names")
+        if ob["twin_forbidden_in_results"]:
+            v("hidden-or-unsupported-member-produced-result", f"tokens {ob['twin_forbidden_in_results'][:3]} of __MACOSX/ members whose base name equals that of an ordinary member (same archive or an archive "
+              "processed earlier by the same process) are in the results", "same-base-name-twins")
+        if ob["earlier_archive_content_in_results"]:
+            v("content-of-earlier-archive-in-results", f"tokens {ob['earlier_archive_content_in_results'][:3]} belong to another archive of the sequence", "same-base-name-twins")
+        if ob["history_dependent"]:
+            v("result-depends-on-process-history", ob["history_dependent"], "same-base-name-twins")
         if ob["linked_protected_member_in_results"]:
             v("hidden-or-unsupported-member-produced-result", f"tokens {ob['linked_protected_member_in_results'][:3]} of hidden / fork / nested / unsupported members that a link member "
               "with an innocent name points at are in the results", "link-to-protected-member")
@@ -458,8 +566,9 @@ def main(run):
     run.require("fs_events_observed", ev_total, run.n(200, 3000))
     run.require("layouts_exercised", len(per_layout), len(archives.EXTENDED_LAYOUTS))
     # the new families must really have been processed (not lost as unbuildable / died), and the monitor must have seen directory creation at all
-    for k, lo in (("7z_archives_with_escaping_dirs", run.n(60, 600)), ("zip_archives_with_escaping_dirs", run.n(5, 50)), ("tar_archives_with_escaping_dirs", run.n(15, 150)),
-                  ("tar_archives_with_links_to_protected", run.n(40, 400)), ("mkdir_events_observed", run.n(100, 1000))):
+    for k, lo in (("7z_archives_with_escaping_dirs", run.n(150, 1500)), ("zip_archives_with_escaping_dirs", run.n(10, 100)), ("tar_archives_with_escaping_dirs", run.n(30, 300)),
+                  ("tar_archives_with_links_to_protected", run.n(40, 400)), ("mkdir_events_observed", run.n(500, 5000)),
+                  ("archive_sequences_with_same_base_name_twins", run.n(100, 1000)), ("7z_archives_with_oversize_member_listed_smaller", run.n(8, 80))):
         run.require(k, run.counters.get(k, 0), lo)
 
 
